@@ -832,6 +832,12 @@ def directed_faultfree():
             lines.append([b"--list", b"-v"])
         for ln in lines:
             out.append(annotate(case_of(c, [b"prog"] + ln), ["ok"], "none"))
+    # a long alias of an argument that has only a short name is a key like any other (seeded change seed2/C10-3)
+    c = {"name": b"p", "about": b"A:p", "groups": [], "aliases": [], "settings": [], "subs": [],
+         "args": [{"id": b"o", "short": "o", "aliases": [(b"output", True), (b"out", False)], "action": "set", "flags": set()},
+                  {"id": b"q", "short": "q", "aliases": [(b"quiet", False)], "action": "settrue", "flags": set()}]}
+    for ln in ([b"--output", b"a.out"], [b"--output=a.out"], [b"--out", b"x", b"--quiet"], [b"-q", b"-o", b"x"], [b"--quiet"]):
+        out.append(annotate(case_of(c, [b"prog"] + ln), ["ok"], "none"))
     c = {"name": b"p", "about": b"A:p", "groups": [], "aliases": [], "settings": ["allow_missing_positional"],
          "args": [pos(b"profile"), pos(b"target", flags={"required"})], "subs": [sub(b"run")]}
     for ln in ([b"web", b"run"], [b"web"], [b"prod", b"web", b"run"], [b"prod", b"web"], [b"web", b"run", b"--force"]):
